@@ -861,6 +861,60 @@ def undo_eafp_probes(tree, ref):
     return total
 
 
+def undo_get_none_tests(tree, ref, ref_locals):
+    """`v = D.get(k)` directly followed by `if v is not None: B` (v a local the reference does not have, used nowhere else)  ->
+    `if k in D: B[v := D[k]]`, where D is a `self.<table>` whose every stored value in the module is a freshly constructed object (so a
+    stored None cannot be mistaken for "missing")."""
+    total = 0
+    # values ever stored into self.<attr>[..] in the module
+    stored = {}
+    for n in ast.walk(tree):
+        if isinstance(n, ast.Assign):
+            for t in n.targets:
+                if isinstance(t, ast.Subscript) and isinstance(t.value, ast.Attribute) and isinstance(t.value.value, ast.Name) and t.value.value.id == 'self':
+                    stored.setdefault(t.value.attr, []).append(n.value)
+    for q, fn in functions(tree):
+        want = (ref_locals or {}).get(q)
+        if want is None:
+            continue
+        for block in _blocks(fn):
+            i = 0
+            while i + 1 < len(block):
+                a, b = block[i], block[i + 1]
+                i += 1
+                if not (isinstance(a, ast.Assign) and len(a.targets) == 1 and isinstance(a.targets[0], ast.Name) and a.targets[0].id not in want and
+                        isinstance(a.value, ast.Call) and isinstance(a.value.func, ast.Attribute) and a.value.func.attr == 'get' and len(a.value.args) == 1 and not a.value.keywords and
+                        isinstance(a.value.func.value, ast.Attribute) and isinstance(a.value.func.value.value, ast.Name) and a.value.func.value.value.id == 'self'):
+                    continue
+                v, D, k = a.targets[0].id, a.value.func.value, a.value.args[0]
+                if not (isinstance(b, ast.If) and not b.orelse and isinstance(b.test, ast.Compare) and len(b.test.ops) == 1 and isinstance(b.test.ops[0], ast.IsNot) and
+                        isinstance(b.test.left, ast.Name) and b.test.left.id == v and isinstance(b.test.comparators[0], ast.Constant) and b.test.comparators[0].value is None):
+                    continue
+                vals = stored.get(D.attr, [])
+                if not vals or not all(isinstance(x, ast.Call) and _txt(x.func).split('.')[-1][:1].isupper() for x in vals):
+                    continue
+                if not all(isinstance(n, (ast.Name, ast.Attribute, ast.Constant, ast.Load)) for n in ast.walk(k)):
+                    continue
+                inside = {id(n) for x in b.body for n in ast.walk(x)}
+                mentions = [n for n in ast.walk(fn) if isinstance(n, ast.Name) and n.id == v]
+                if any(id(n) not in inside for n in mentions if n is not a.targets[0] and n is not b.test.left):
+                    continue
+                if any(isinstance(n.ctx, ast.Store) for n in mentions if n is not a.targets[0]):
+                    continue
+                knames = {n.id for n in ast.walk(k) if isinstance(n, ast.Name)}
+                if any(isinstance(n, ast.Name) and n.id in knames and isinstance(n.ctx, ast.Store) for x in b.body for n in ast.walk(x)):
+                    continue
+                look = ast.Subscript(value=copy.deepcopy(D), slice=copy.deepcopy(k), ctx=ast.Load())
+                sub = _Subst({v: look})
+                b.body = [sub.visit(x) for x in b.body]
+                b.test = ast.copy_location(ast.Compare(left=copy.deepcopy(k), ops=[ast.In()], comparators=[copy.deepcopy(D)]), b.test)
+                del block[i - 1]
+                total += 1
+    if total:
+        ast.fix_missing_locations(tree)
+    return total
+
+
 def lower_match(tree, ref):
     """`match subject: case P: ...` with value, literal, class (`T()`), or-patterns and `_`  ->  the if / elif / else chain it stands
     for (`subject == V`, `isinstance(subject, T)`); a subject that is not a plain name or attribute chain is bound to a local first."""
@@ -3590,17 +3644,47 @@ def _unstable_attrs(model, tree):
     return out
 
 
-def _stable_chain(e, unstable, fn=None):
+def _class_unstable(tree, fn):
+    """attribute names that the class of method ``fn`` re-binds through self outside __init__, plus names stored through any other
+    receiver in this module (which may be an object of that class)"""
+    out = set()
+    owner = None
+    for c in ast.walk(tree):
+        if isinstance(c, ast.ClassDef) and any(x is fn for x in ast.walk(c)):
+            owner = c                                   # innermost wins (walk order: outer first)
+    for q, f2 in functions(tree):
+        in_owner = owner is not None and any(x is f2 for x in ast.walk(owner))
+        for n in _own_walk(f2):
+            if isinstance(n, ast.Attribute) and isinstance(n.ctx, (ast.Store, ast.Del)):
+                via_self = isinstance(n.value, ast.Name) and n.value.id in ('self', 'cls')
+                if via_self and in_owner and f2.name != '__init__':
+                    out.add(n.attr)
+                elif not via_self:
+                    out.add(n.attr)
+    return out
+
+
+def _stable_chain(e, unstable, fn=None, tree=None):
     """`self.a.b` / `Class.CONST` / `self.q.get`: a chain of attribute reads from a plain name in which no attribute is ever re-bound
     after construction - reading it again later gives the same object"""
     if unstable is None or not isinstance(e, ast.Attribute):
         return False
+    chain = []
     cur = e
     while isinstance(cur, ast.Attribute):
-        if cur.attr in unstable:
-            return False
+        chain.append(cur)
         cur = cur.value
-    return isinstance(cur, ast.Name)
+    if not isinstance(cur, ast.Name):
+        return False
+    chain.reverse()
+    for k, a in enumerate(chain):
+        if k == 0 and cur.id in ('self', 'cls') and fn is not None and tree is not None:
+            # the object's own attribute: what its class (and anything in this module that may hold such an object) re-binds
+            if a.attr in _class_unstable(tree, fn):
+                return False
+        elif a.attr in unstable:
+            return False
+    return True
 
 
 def inline_temps(tree, path, ref_locals):
@@ -3639,7 +3723,7 @@ def inline_temps(tree, path, ref_locals):
                 uses = [n for n in ast.walk(fn) if isinstance(n, ast.Name) and n.id == name and isinstance(n.ctx, ast.Load)]
                 if not uses:
                     continue
-                alias = _stable_chain(st.value, unstable) and not any(isinstance(n, ast.Name) and n.id in _stores(fn) for n in ast.walk(st.value))
+                alias = _stable_chain(st.value, unstable, fn, tree) and not any(isinstance(n, ast.Name) and n.id in _stores(fn) for n in ast.walk(st.value))
                 reads_self = not alias and any(isinstance(n, ast.Attribute) and isinstance(n.value, ast.Name) and n.value.id == 'self' for n in ast.walk(st.value))
                 if len(uses) > 1 and _creates_object(st.value):
                     continue            # two uses of one list / iterator / array are two views of ONE object: writing the expression twice makes two
@@ -4061,6 +4145,15 @@ def expand_comprehensions(tree, ref):
             changed = False
             for block in _blocks(fn):
                 for i, st in enumerate(block):
+                    # X += [e for v in L if c] on a local list, outside any try of the function (a failure half way loses X altogether)
+                    #   -> the same as X.extend(<generator>): handled below
+                    if isinstance(st, ast.AugAssign) and isinstance(st.op, ast.Add) and isinstance(st.target, ast.Name) and isinstance(st.value, ast.ListComp) and \
+                            _shape_txt(st.value) not in keep and not any(isinstance(t_, ast.Try) and any(x_ is st for x_ in ast.walk(t_)) for t_ in ast.walk(fn)):
+                        gen_ = ast.copy_location(ast.GeneratorExp(elt=st.value.elt, generators=st.value.generators), st.value)
+                        st = ast.copy_location(ast.Expr(value=ast.copy_location(ast.Call(func=ast.Attribute(value=ast.Name(id=st.target.id, ctx=ast.Load()), attr='extend', ctx=ast.Load()),
+                                                                                           args=[gen_], keywords=[]), st)), st)
+                        ast.fix_missing_locations(st)
+                        block[i] = st
                     # T.extend(e for v in L if c) as a statement -> for v in L: if c: T.append(e)   (elements are appended as they are produced)
                     if isinstance(st, ast.Expr) and isinstance(st.value, ast.Call) and isinstance(st.value.func, ast.Attribute) and st.value.func.attr == 'extend' and \
                             isinstance(st.value.func.value, (ast.Name, ast.Attribute)) and len(st.value.args) == 1 and not st.value.keywords and \
@@ -4200,7 +4293,7 @@ def normalise(tree, path, ref_locals, model=None):
         return {}
     _CUR_MODEL[0] = model
     out = {}
-    for name, fn in (('moved', lambda: pull_back_moved(tree, ref, path, model) + drop_moved_away(tree, ref, path, model)), ('match', lambda: lower_match(tree, ref)), ('eafp', lambda: undo_eafp_probes(tree, ref)), ('enums', lambda: dissolve_enums(tree, ref)), ('namedtuples', lambda: dissolve_namedtuples(tree, ref, path, model)), ('regroup', lambda: regroup_indexed_reads(tree, ref, ref_locals)), ('dataclasses', lambda: undo_dataclasses(tree, ref)), ('dispatch', lambda: undo_dispatch_tables(tree, ref)),
+    for name, fn in (('moved', lambda: pull_back_moved(tree, ref, path, model) + drop_moved_away(tree, ref, path, model)), ('match', lambda: lower_match(tree, ref)), ('eafp', lambda: undo_eafp_probes(tree, ref)), ('getnone', lambda: undo_get_none_tests(tree, ref, ref_locals)), ('enums', lambda: dissolve_enums(tree, ref)), ('namedtuples', lambda: dissolve_namedtuples(tree, ref, path, model)), ('regroup', lambda: regroup_indexed_reads(tree, ref, ref_locals)), ('dataclasses', lambda: undo_dataclasses(tree, ref)), ('dispatch', lambda: undo_dispatch_tables(tree, ref)),
                      ('annotations', lambda: strip_annotations(tree, ref)), ('imports', lambda: normalise_imports(tree, ref)), ('attributes', lambda: rename_attributes(tree, ref)),
                      ('methods', lambda: rename_methods(tree, ref)), ('formats', lambda: restyle_formats(tree, ref)), ('closures', lambda: restore_closures(tree, ref) + restore_closures_from_objects(tree, ref)), ('self', lambda: restore_self(tree, ref)), ('tuples', lambda: split_tuple_bindings(tree, ref)), ('suppress', lambda: expand_suppress(tree, ref)), ('constants', lambda: _constants(tree, ref)),
                      ('observability', lambda: drop_observability(tree, ref)), ('params', lambda: default_new_params(tree, ref) + default_new_params(tree, ref)), ('initliterals', lambda: inline_init_literals(tree, ref)),
